@@ -1,4 +1,4 @@
-#!/venv/bin/python
+#!/usr/bin/env python3-vt
 """Generate /verif/MANIFEST.json from the table below (single source of truth) and validate it."""
 import json
 import sys
@@ -19,6 +19,27 @@ CHECKS = {
         "Trusted: /verif's own SIGPROC writer and bit packer, numpy, tmpfs regular-file semantics (no short reads). "
         "Sample values are labels, not enumerated (read_plan is data-oblivious).",
         "DESIGN.md section 3 C01",
+    ),
+    "C02": (
+        "model_checking",
+        "explicit-state BFS to closure over real FileReader states, each transition compared with a bytes model",
+        "For every depth and every composition of L items over 1..3 files (empty files included) the reachable state graph of "
+        "the real FileReader, keyed by (ifile_cur, tell), is explored to closure with all in-range seeks and reads (0..3 items, "
+        "to/over each boundary, to/past EOF); every transition runs the real method on a fresh reader (shortest history replayed) "
+        "and a bytes model and compares data, byte count and cur_data_pos_stream. Because the graph closes, histories of any "
+        "length are covered for those file sets. read_block: all ranges incl. out-of-range and all ordered request pairs.",
+        "Assumes (ifile_cur, file position) is the whole mutable state of FileReader (checked from vars(); extra attributes are folded "
+        "into the key). Per-file lengths are whole items; no short reads injected; random long histories (thorough) are auxiliary only.",
+        "DESIGN.md section 3 C02",
+    ),
+    "C03": (
+        "exploration",
+        "complete enumeration of the finite byte/field domain against a Python-integer bit-field definition",
+        "All 256 byte values at every position of arrays of length 0..5(7), all field tuples per byte, 3 depths x both orders and "
+        "their accepted spellings, with and without caller buffers, the full rejection matrix, and the default order per depth "
+        "through the real writer and reader: the domain of the statement is finite and is covered completely.",
+        "Trusted: the Python-integer reference in vf/core/fixtures.py. Array lengths above the bound are not explored (kernels are per-byte loops).",
+        "DESIGN.md section 3 C03",
     ),
 }
 
